@@ -127,19 +127,19 @@ def isType : IsOp → Json → Bool
   | _, _ => false
 
 /-- the data a rule is evaluated against: the state's effective input and the context -/
-structure Env where
+structure CEnv where
   input : Json
   ctx : Json
   deriving Repr, Inhabited
 
 /-- the value a Path selects, `none` when it selects nothing -/
-def Env.lookup (e : Env) (path : Str) : Option Json :=
+def CEnv.lookup (e : CEnv) (path : Str) : Option Json :=
   match applyPath e.input e.ctx (some path) with
   | .ok v => some v
   | .error _ => none
 
 mutual
-def evalRule (e : Env) : Rule → Bool
+def evalRule (e : CEnv) : Rule → Bool
   | .cmp c var k =>
     match e.lookup var with
     | some x => evalCmp c x k
@@ -156,10 +156,10 @@ def evalRule (e : Env) : Rule → Bool
   | .and rs => evalAll e rs
   | .or rs => evalAny e rs
   | .not r => !evalRule e r
-def evalAll (e : Env) : List Rule → Bool
+def evalAll (e : CEnv) : List Rule → Bool
   | [] => true
   | r :: rs => evalRule e r && evalAll e rs
-def evalAny (e : Env) : List Rule → Bool
+def evalAny (e : CEnv) : List Rule → Bool
   | [] => false
   | r :: rs => evalRule e r || evalAny e rs
 end
@@ -167,7 +167,7 @@ end
 /-! ### the Choice state -/
 
 /-- `Next` of the first rule that matches, in array order -/
-def firstMatch (e : Env) : List (Rule × Str) → Option Str
+def firstMatch (e : CEnv) : List (Rule × Str) → Option Str
   | [] => none
   | (r, next) :: rest => if evalRule e r then some next else firstMatch e rest
 
@@ -179,7 +179,7 @@ def ChoiceErr.name : ChoiceErr → String
   | .noChoiceMatched => "States.NoChoiceMatched"
 
 /-- the transition a Choice state takes -/
-def choose (e : Env) (choices : List (Rule × Str)) (default : Option Str) : Except ChoiceErr Str :=
+def choose (e : CEnv) (choices : List (Rule × Str)) (default : Option Str) : Except ChoiceErr Str :=
   match firstMatch e choices with
   | some n => .ok n
   | none =>
